@@ -463,4 +463,36 @@ def rule_i(ctx: Ctx) -> None:
                 'iter_substitutes() of both operands (the recursive closure).')
 
 
-RULES = [rule_a, rule_b, rule_c, rule_d, rule_e, rule_f, rule_g, rule_h, rule_i]
+def rule_j(ctx: Ctx) -> None:
+    """EDC compares the two declarations that actually compete - self or the member of its substitution group named like the other, and
+    vice versa.  A variable that holds such a declaration must not double as the target of the search loop: when the loop runs to
+    exhaustion it is left bound to the last member tried, not to the default, and the comparison is made with an unrelated element."""
+    rule = 'C15.j'
+    n = 0
+    for cq in ('xmlschema.validators.elements.XsdElement', 'xmlschema.validators.elements.Xsd11Element'):
+        c = ctx.idx.cls(cq)
+        f = c.methods.get('is_consistent')
+        if f is None:
+            continue
+        ctx.analysed(f.qualname)
+        g = cfg_of(ctx, f)
+        rd = g.reaching_defs(kinds='nTF')
+        for x in g.nodes:
+            for e in (x.exprs or ([x.ast] if x.kind in ('stmt', 'return') else [])):
+                for cmp_ in [y for y in ast.walk(e) if isinstance(y, ast.Compare) and any(isinstance(z, ast.Attribute) and z.attr in ('type', 'alternatives') for z in ast.walk(y))]:
+                    for nm_ in {z.value.id for z in ast.walk(cmp_) if isinstance(z, ast.Attribute) and z.attr in ('type', 'alternatives') and isinstance(z.value, ast.Name)
+                                and z.value.id not in ('self', 'other')}:
+                        n += 1
+                        # a loop header is a harmful definition only if the comparison is reachable after the loop ran to exhaustion
+                        loop_defs = [d for d in rd[x].get(nm_, set()) if d.kind == 'for'
+                                     and x in g.reachable([m for m, lab in g.succ[d] if lab == 'F'], kinds='nTF')]
+                        ok = not loop_defs
+                        ctx.ob(rule, f'{c.name}.is_consistent: `{nm_}` in `{text(cmp_)[:50]}` is never the leftover of a search loop', f.loc(cmp_), ok,
+                               '' if ok else f'`{nm_}` is the target of the loop at line {loop_defs[0].lineno}: when no member matches, it stays bound to the last member tried - '
+                               'sequence(ref h2, ref h1) with m:D in the substitution group of h1 is rejected with a false Element Declarations Consistent error (XSD 1.1)',
+                               key=f'{c.name}.is_consistent|no-loop-leftover|{nm_}|{text(cmp_)[:30]}')
+    ctx.floor(rule, 'declarations compared by is_consistent', n, 2)
+    ctx.explain('C15.j: reaching definitions - no `for` header is among the definitions of a variable whose .type / .alternatives is compared in is_consistent.')
+
+
+RULES = [rule_a, rule_b, rule_c, rule_d, rule_e, rule_f, rule_g, rule_h, rule_i, rule_j]
